@@ -3,11 +3,12 @@
     the string record [s] (bytes object, offset, size) represents the code-point array [cs]. *)
 From ChibiV Require Import C12.Model C12.Spec C12.Utf8Proofs C12.Proofs C12.Proofs2 C12.Proofs3 C12.Proofs4
   C12.PortModel C12.PortProofs C12.RangeModel C12.OutProofs C12.RangeProofs C12.CmpProofs C12.LineProofs
-  C12.PortErrProofs C12.CopyProofs C12.MapModel C12.MapProofs C12.HistModel2 C12.HistProofs2 C12.FilePortModel C12.FilePortProofs C12.CiModel C12.CiProofs.
+  C12.PortErrProofs C12.CopyProofs C12.MapModel C12.MapProofs C12.HistModel2 C12.HistProofs2 C12.FilePortModel C12.FilePortProofs C12.CiModel C12.CiProofs C12.TruncProofs.
 Local Open Scope Z_scope.
 
+(* [decode_at d i rem]: sexp_string_utf8_ref at byte i with [rem] bytes left up to the end of the string *)
 Theorem utf8_roundtrip : forall c, cp c -> forall rest,
-  decode_at (encode c ++ rest) 0 = Some c /\
+  (forall rem, Z.of_nat (width c) <= rem -> decode_at (encode c ++ rest) 0 rem = Some c) /\
   lead_count (byte_at (encode c ++ rest) 0) = width c /\ length (encode c) = width c.
 Proof. exact utf8_roundtrip_all. Qed.
 Print Assumptions utf8_roundtrip.
@@ -16,8 +17,8 @@ Theorem encode_wellformed : forall c, is_scalar c -> wf_seq (encode c) /\ seq_va
 Proof. exact encode_wellformed_scalar. Qed.
 Print Assumptions encode_wellformed.
 
-Theorem decode_wellformed_inverse : forall l rest, wf_seq l ->
-  decode_at (l ++ rest) 0 = Some (seq_value l) /\ is_scalar (seq_value l) /\ encode (seq_value l) = l.
+Theorem decode_wellformed_inverse : forall l rest rem, wf_seq l -> Z.of_nat (length l) <= rem ->
+  decode_at (l ++ rest) 0 rem = Some (seq_value l) /\ is_scalar (seq_value l) /\ encode (seq_value l) = l.
 Proof. exact decode_wellformed. Qed.
 Print Assumptions decode_wellformed_inverse.
 
@@ -398,3 +399,30 @@ Theorem string_ci_refines_comparison_of_folded_code_points : forall bufsize h s1
             (z ?= 0) = lex (string_foldcase_cps cs1) (string_foldcase_cps cs2).
 Proof. exact string_ci_full_refines. Qed.
 Print Assumptions string_ci_refines_comparison_of_folded_code_points.
+
+(** round 5: a lead byte cut off by the end of the string (sexp.c sexp_string_utf8_ref "truncated utf8 sequence",
+    eval.c sexp_string_utf8_set clamp).  [Trunc h s a x k]: [s] holds the characters [a], then only the first
+    k (0 < k < width x) bytes of the encoding of the non-ASCII [x]; what follows in the store is not part of [s]. *)
+Theorem truncated_lead_byte_is_a_decoding_error : forall c, cp c -> 128 <= c ->
+  forall rest rem, rem < Z.of_nat (width c) -> decode_at (encode c ++ rest) 0 rem = None.
+Proof. exact truncated_lead_is_error. Qed.
+Print Assumptions truncated_lead_byte_is_a_decoding_error.
+
+Theorem string_ref_of_truncated_lead_is_error : forall h s a x k, Trunc h s a x k ->
+  string_ref h s (Z.of_nat (length a)) = Err Utf8Err.
+Proof. exact ref_of_truncated_lead_is_error. Qed.
+Print Assumptions string_ref_of_truncated_lead_is_error.
+
+(** string-set! there replaces exactly the k bytes that are left (never the announced width), and - when it
+    re-allocates - the result is the characters before the cut followed by the new character, in a fresh store,
+    every existing store unchanged *)
+Theorem string_set_at_truncated_lead_replaces_remaining_bytes : forall h s a x k c, Trunc h s a x k -> cp c ->
+  clamp_old_len (lead_count (byte_at (sdata h s) (length (enc_all a)))) (ssize s - length (enc_all a)) = k /\
+  ((scow s = true \/ width c <> k) ->
+   exists h' s', string_set h s (Z.of_nat (length a)) c = Ok (h', s') /\ Rep h' s' (a ++ [c]) /\
+                 sbytes s' = length h /\ (forall j, (j < length h)%nat -> nth j h' [] = nth j h [])).
+Proof.
+  intros h s a x k c T Hc. split; [exact (set_at_truncated_lead_replaces_remaining h s a x k T)|].
+  exact (set_at_truncated_lead_fresh h s a x k c T Hc).
+Qed.
+Print Assumptions string_set_at_truncated_lead_replaces_remaining_bytes.
